@@ -64,8 +64,12 @@ MechPActsOnRef(G, j, n) == PreGate(G, j) /\ SecondCheck(G, n)
 \* the rule as a post-processing item sees it: everything applied to it so far, incl. the first
 \* post-processing item (absent for pp = "none")
 RulePP(pp) == [Rule EXCEPT !.applied = IF pp = "none" THEN @ ELSE Append(@, <<102,105,114,115,116>>)]
+\* a membership operator on an attribute that is no list: a configuration error WHEN the condition is evaluated (linking
+\* may make that unnecessary) - what is demanded is that nothing but a Sigma error comes of it
+BadAttrOp(G) == \E i \in 1..Len(G.rule.conds) : G.rule.conds[i].t = "attr" /\ G.rule.conds[i].s \in {"in", "not_in"}
 Clause(o) ==
-    IF ~ValidGate(o.G) THEN (IF o.ret.ok THEN "UnknownLinkingWordAccepted" ELSE IF o.ret.sigma THEN "" ELSE "NonSigmaException")
+    IF BadAttrOp(o.G) THEN (IF ~o.ret.ok /\ ~o.ret.sigma THEN "NonSigmaException" ELSE "unspec")
+    ELSE IF ~ValidGate(o.G) THEN (IF o.ret.ok THEN "UnknownLinkingWordAccepted" ELSE IF o.ret.sigma THEN "" ELSE "NonSigmaException")
     ELSE IF o.pp # "-" THEN
         (IF ~o.ret.ok THEN (IF o.ret.sigma THEN "GateConfigurationRejected" ELSE "NonSigmaException")
          ELSE IF o.ret.out.rule # ActsOnRule(o.G, RulePP(o.pp)) THEN "GateIff:post-processing" ELSE "")
@@ -86,7 +90,7 @@ Clause(o) ==
     ELSE IF o.ret.out.second.fields # <<ActsOnFieldEntry(o.G, 1, Rule2)>> THEN "GateIff:second-rule:field-list"
     ELSE ""
 IsDev(c) == c \in {"dev:Dev_FieldAppliedConditionSecondCheck", "dev:Dev_FieldGroupPrefilterOverReferences"}
-Verdict(o) == LET c == Clause(o) IN [id |-> o.id, v |-> IF c = "" THEN "ok" ELSE IF IsDev(c) THEN c ELSE "violation:" \o c]
+Verdict(o) == LET c == Clause(o) IN [id |-> o.id, v |-> IF c = "" THEN "ok" ELSE IF c = "unspec" THEN "unspec" ELSE IF IsDev(c) THEN c ELSE "violation:" \o c]
 ASSUME ndJsonSerialize(IOEnv.VERIF_OUT, [i \in 1..Len(Obs) |-> Verdict(Obs[i])])
 Init == x = 0
 Next == UNCHANGED x
